@@ -46,9 +46,11 @@ def main():
         shutil.copytree('/repo', root, ignore=shutil.ignore_patterns('target', 'benches'))
         run(['git', 'checkout', '-q', '--', '.'], root)
         env = dict(os.environ, CARGO_NET_OFFLINE='true', CARGO_TARGET_DIR=os.path.join(d, 'target'))
+        feat = ['--features', 'serde'] if 'feature = "serde"' in open(demo).read() else []
+        report['demo_features'] = feat
         # demo without the patch
         shutil.copy(demo, os.path.join(root, 'tests', 'seed_demo.rs'))
-        rc, out = run(['cargo', 'test', '--offline', '--test', 'seed_demo'], root, env)
+        rc, out = run(['cargo', 'test', '--offline', '--test', 'seed_demo'] + feat, root, env)
         report['demo_without_patch'] = 'passes' if rc == 0 else 'FAILS'
         rc, out = run(['git', 'apply', '--whitespace=nowarn', patch], root)
         report['patch_applies'] = rc == 0
@@ -56,10 +58,10 @@ def main():
             report['apply_error'] = out[-400:]
             print(json.dumps(report, indent=1))
             return 1
-        rc, out = run(['cargo', 'test', '--offline', '--test', 'seed_demo'], root, env)
+        rc, out = run(['cargo', 'test', '--offline', '--test', 'seed_demo'] + feat, root, env)
         report['demo_with_patch'] = 'fails' if rc != 0 else 'PASSES'
         os.remove(os.path.join(root, 'tests', 'seed_demo.rs'))
-        rc, out = run(['cargo', 'test', '--offline'], root, env)
+        rc, out = run(['cargo', 'test', '--offline'] + feat, root, env)
         p, f = tests_summary(out)
         report['baseline_with_patch'] = 'passes (%d passed, %d failed)' % (p, f) if rc == 0 and f == 0 else 'FAILS (%d passed, %d failed)' % (p, f)
         shutil.rmtree(os.path.join(d, 'target'), ignore_errors=True)
